@@ -18,9 +18,9 @@ import (
 	banktypes "github.com/cosmos/cosmos-sdk/x/bank/types"
 	tftypes "github.com/palomachain/paloma/v2/x/tokenfactory/types"
 	vtypes "github.com/palomachain/paloma/v2/x/valset/types"
-	"verif/mc/explore"
-	"verif/mc/report"
-	"verif/mc/world"
+	"github.com/palomachain/paloma/v2/zzverif/explore"
+	"github.com/palomachain/paloma/v2/zzverif/report"
+	"github.com/palomachain/paloma/v2/zzverif/world"
 )
 
 type ghost struct {
